@@ -91,6 +91,9 @@ func (p *GTElt) Neg(a kyber.Point) kyber.Point {
 }
 
 func (p *GTElt) Mul(s kyber.Scalar, q kyber.Point) kyber.Point {
+	if q == nil {
+		q = new(GTElt).Base()
+	}
 	qq, ss := q.(*GTElt), s.(*Scalar)
 	p.inner.Exp(&qq.inner, &ss.inner)
 	return p
